@@ -309,6 +309,19 @@ def run_config(cfg, seed, tier):
     return tot
 
 
+def extra_coverage(results):
+    """evidence: number of bursts really explored and the measured status of every converter burst class"""
+    bursts = sum(int(r.get("bursts", 0) or 0) for r in results)
+    b2b = sum(int(r.get("bursts", 0) or 0) for r in results if str(r.get("cfg", "")).startswith("AXIBurst2Beat"))
+    classes = {}
+    for r in results:
+        c = r.get("cover") or {}
+        if "clean_bursts" in c:
+            classes[r["cfg"]] = dict(clean=c["clean_bursts"], failing=c["failing_bursts"],
+                                     rules={k: v["count"] for k, v in (c.get("failing_by_rule") or {}).items()})
+    return dict(bursts_explored=bursts, burst2beat_bursts=b2b, converter_burst_classes=classes)
+
+
 def replay(rec):
     f = mk(rec["cfg"])
     cyc = [tuple_deep(c) for c in rec["cycle"]] if rec.get("cycle") else None
